@@ -1,18 +1,19 @@
 #!/bin/sh
 # Re-applies every stored seeded change (seeded/<label>/patch.diff) to a fresh scratch worktree of /repo
 # and runs the quick check of the property it breaks; each must exit 1. Worktrees are removed afterwards.
-# usage: tools/seed_regress.sh [labels...]
+# usage: tools/seed_regress.sh [labels...]     (SEED_REGRESS_JOBS=n limits the workers per check, SEED_REGRESS_TAG separates parallel invocations)
 cd "$(dirname "$0")/.."
 LABELS=${@:-$(ls seeded | grep -v INDEX.md)}
 rc=0
 for L in $LABELS; do
   P=$(/venv/bin/python -c "import json;print(json.load(open('seeded/$L/meta.json')).get('property','$L'[:3]))")
   W=/tmp/regress_$L
-  git -C /repo worktree add -q $W HEAD && git -C $W apply /verif/seeded/$L/patch.diff || { echo "$L: cannot apply"; rc=1; continue; }
-  VERIF_REPO=$W VERIF_REPLAY_DIR=/tmp/regress_replays VERIF_CACHE_DIR=/tmp/regress_cache timeout 1500 ./check $P --tier quick --no-evidence > /tmp/regress_$L.log 2>&1; c=$?
+  TAG=${SEED_REGRESS_TAG:-0}
+  git -C /repo worktree add -q $W HEAD && (git -C $W apply /verif/seeded/$L/patch.diff 2>/dev/null || git -C $W apply --3way /verif/seeded/$L/patch.diff) || { echo "$L: cannot apply"; rc=1; continue; }
+  VERIF_REPO=$W VERIF_REPLAY_DIR=/tmp/regress_replays_$TAG VERIF_CACHE_DIR=/tmp/regress_cache_$TAG timeout 2400 ./check $P --tier quick --no-evidence ${SEED_REGRESS_JOBS:+--jobs $SEED_REGRESS_JOBS} > /tmp/regress_$L.log 2>&1; c=$?
   echo "$L -> $P exit=$c $(grep -E 'class=' /tmp/regress_$L.log | head -1 | sed 's/ replay_verified=True//')"
   [ $c -ne 1 ] && rc=1
   git -C /repo worktree remove --force $W
 done
-rm -rf /tmp/regress_replays /tmp/regress_cache
+rm -rf /tmp/regress_replays_${SEED_REGRESS_TAG:-0} /tmp/regress_cache_${SEED_REGRESS_TAG:-0}
 exit $rc
